@@ -9,13 +9,19 @@ TB = "trusted: Lean kernel + {propext, Classical.choice, Quot.sound}; "
 
 PROPS = {
     "C08": {
-        "harness": "c08", "level": "proof", "category": "proof", "design_ref": "DESIGN.md 5/C08, 4.7", "translators": ["kernels"],
+        "harness": "c08", "level": "proof", "category": "proof", "design_ref": "DESIGN.md 5/C08, 4.7", "translators": ["kernels", "sparsemetrics"],
         "technique": "Lean 4 proof (two-pointer merges decode to pointwise operations; sparse metric = dense metric on list-encoded vectors, over any ordered ring/field) "
                      "+ tie BY THEOREM for the four two-pointer kernels sparse_sum / sparse_mul / sparse_dot_product / fast_intersection_size: their source text is "
                      "translated to Lean on every run (harness/translate_kernels.py -> Gen/Kernels.lean) and the translation is proved memory safe and equal to the "
                      "hand-written model for every input; the translator is validated by executing its output against the numba kernels on every run "
                      "+ exact correspondence of the remaining merge kernels + real sparse vs real dense kernels on all support patterns",
-        "text": "Lean theorems over a literal model of sparse.py's merge kernels (sparse_sum/diff/mul with dropped zeros and tail loops, "
+        "text": "ALSO TIED BY THEOREM (harness/translate_sparsemetrics.py -> Gen/SparseMetricKernels.lean, regenerated every run): the sparse metric kernels sparse_diff, "
+                "sparse_squared_euclidean, sparse_euclidean, sparse_manhattan, sparse_chebyshev - wrappers that CALL the translated sparse_sum (on -data2) and loop once over the "
+                "merged row - are proved memory safe and equal to the model (kernel_sparse_diff_refines, kernel_sparse_squared_euclidean_refines, kernel_sparse_euclidean_refines, "
+                "kernel_sparse_manhattan_refines, kernel_sparse_chebyshev_refines: all rows, any carrier, fuel >= n1+n2+1); kernel_sparse_metrics_enc restates sqeuclidean_agrees / "
+                "manhattan_agrees / chebyshev_agrees on the translated source, and kernel_sparse_eq_dense states property C08 on BOTH regenerated kernels over R: translated sparse_X on "
+                "the CSR encodings = translated dense X of distances.py (Gen/MetricKernels.lean) on the vectors, for squared_euclidean, manhattan, chebyshev. "
+                "Lean theorems over a literal model of sparse.py's merge kernels (sparse_sum/diff/mul with dropped zeros and tail loops, "
                 "sparse_dot_product with its early returns, arr_union/intersect, fast_intersection_size): merge_decode / merge_wf / merge_enc "
                 "(every support relation at once), dot_product_agrees, intersection_size_agrees, and sparse_X (enc x) (enc y) [n] = dense_X x y "
                 "for the Minkowski family, hamming, the binary family with the n_features closed-form corrections, cosine parts, hellinger sums, "
@@ -34,7 +40,10 @@ PROPS = {
                 "arr_union, arr_intersect) and all 8 again are compared exactly with the model on all support patterns "
                 "for dim <= 5 with small-integer values (cancellations to 0) and the real sparse metrics are compared with the real dense "
                 "metrics for every name in both tables (n_features / p / ground metric supplied; union of supports for JS / symmetric KL)",
-        "note": TB + "the translator harness/translate_kernels.py (numba subset -> Lean; unsupported syntax omits the kernel and breaks the proof), validated on "
+        "note": TB + "the translator harness/translate_sparsemetrics.py (same machinery; np.abs -> absV, max -> maxV, np.sqrt -> a function parameter; validated by executing "
+                     "gsm_diff / gsm_sqeuclidean / gsm_manhattan / gsm_chebyshev against numba on every case incl. ill-formed rows); the other sparse metric kernels (minkowski, hamming, canberra, "
+                     "bray_curtis, binary family, cosine, dot, hellinger, correlation, ...) are tied by sampling only; "
+                     "the translator harness/translate_kernels.py (numba subset -> Lean; unsupported syntax omits the kernel and breaks the proof), validated on "
                      "every run by executing the translated kernels in the native driver (gk_sum, gk_mul, gk_dot, gk_isect) on every generated case plus "
                      "ill-formed rows (unsorted, duplicate indices, stored zeros) and comparing exactly with the numba kernels (translated-kernel:<name>); the "
                      "translation computes in unbounded Int and an abstract carrier: "
@@ -478,7 +487,7 @@ PROPS = {
      'category': 'proof',
      'design_ref': 'DESIGN.md 5/C07, 4.7',
      'translators': ['metrics'],
-     'technique': "TIE BY THEOREM: the source text of 34 kernels of distances.py is translated to Lean on every run (harness/translate_metrics.py -> "
+     'technique': "TIE BY THEOREM: the source text of 35 kernels of distances.py is translated to Lean on every run (harness/translate_metrics.py -> "
                   "Gen/MetricKernels.lean, over the model's own generic carrier Arith) and each translation is proved memory safe and equal to the hand-written "
                   "model for every input (kernel_*_refines); the translator is validated by executing its output over float64 against numba and, bit for bit, against the model. "
                   "Lean 4 proof over the reals about one generic model of the dense kernels (written once over a class Arith, following each kernel's "
@@ -489,7 +498,7 @@ PROPS = {
              'e**2 -> e*e, np.sqrt/abs/log2/arccos/max/min/pi/FLOAT32_MAX -> Arith fields, == via BEq, < / <= decidable); Props/C07.lean proves '
              'kernel_<name>_refines for euclidean, squared_euclidean, manhattan, chebyshev, minkowski, standardised_euclidean, weighted_minkowski, cosine, '
              'alternative_cosine, dot, alternative_dot, true_angular, correlation, hamming, canberra, bray_curtis, jaccard, alternative_jaccard, matching, '
-             'dice, kulsinski, rogers_tanimoto, russellrao, sokal_michener, sokal_sneath, yule, hellinger, alternative_hellinger, tsss, haversine and the four '
+             'dice, kulsinski, rogers_tanimoto, russellrao, sokal_michener, sokal_sneath, yule, hellinger, alternative_hellinger, tsss, haversine, mahalanobis (np.empty temporary + nested loop over the n x n vinv, fuel >= 2n+2) and the four '
              'correction ufuncs: for ALL x y with x.size = y.size and fuel >= x.size + 1, GenMetric.<name> fuel x y = some (Metrics.<name> x.toList y.toList) '
              '(no out-of-bounds load, termination, same value) on EVERY carrier Arith (no arithmetic law used; counting kernels under CountLaws), and '
              'kernel_euclidean_spec / kernel_cosine_symm_range / kernel_jaccard_real restate theorems of this file on the translated source; a change '
@@ -510,7 +519,7 @@ PROPS = {
              '(gmetric / gcorr) on every generated case against numba under the tolerance rule (translated-kernel:<name>) and against the model bit for bit '
              '(translated-kernel-vs-model:<name>); the counting kernels (hamming, jaccard, alternative_jaccard, matching, dice, kulsinski, rogers_tanimoto, '
              'sokal_michener, sokal_sneath, russellrao, yule) are tied under CountLaws (ofNat 0 = 0, ofNat (n+1) = ofNat n + 1, a + 0 = a: true over R, '
-             'countLaws_real) because the code adds 1.0 / 0.0 to a float where the model counts in N; NOT translated (sampled tie only): mahalanobis, '
+             'countLaws_real) because the code adds 1.0 / 0.0 to a float where the model counts in N; NOT translated (sampled tie only): '
              'rankdata / spearmanr, jensen_shannon_divergence, symmetric_kl_divergence, wasserstein_1d, kantorovich, sinkhorn, circular_kantorovich, bit_hamming, '
              'bit_jaccard; float rounding is outside the theorems (exact real arithmetic): value, '
              'symmetry, identity and NaN under float32 rest on the sampled comparison with the float64 reference under the tolerance rule; theorems '
